@@ -97,6 +97,15 @@ package snowflake_proxy
 //@   after call count ghost lastCount = ret0
 //@   at call EncodeProxyPollRequestWithRelayPrefix assert {load-is-a-fresh-multiple-of-8-not-above-the-slots-in-use} calls(count) == calls(EncodeProxyPollRequestWithRelayPrefix) + 1 && (lastCount >= 0 ==> arg3 % 8 == 0 && 0 <= arg3 && arg3 <= lastCount && lastCount - arg3 <= 7)
 //
+// makePeerConnectionFromOffer follows "(value, nil) or (nil, err)" on EVERY failure branch (the offer is remote input:
+// a description that deserialises but that pion rejects takes the SetRemoteDescription branch); runSession hands the
+// result to sendAnswer, which dereferences it, after checking the error only.
+//@ func (sf *SnowflakeProxy) makePeerConnectionFromOffer(sdp *webrtc.SessionDescription, config webrtc.Configuration, dataChan chan struct{}, claim *sync.Once, handler func(conn *webRTCConn, remoteAddr net.Addr)) (r *webrtc.PeerConnection, err error)
+//@   props C13, C16
+//@   flag nosafety
+//@   requires sdp != nil
+//@   ensures {value-or-error} (err == nil) <==> (r != nil)
+//
 // The OnDataChannel callback: pion invokes it once per data channel the REMOTE client chooses to open, so it must be
 // safe under repeated invocation (no precondition), and it starts at most one handler per peer connection
 // (one slot, one handler), and none at all once runSession has claimed the session on timeout (the same sync.Once).
